@@ -52,51 +52,46 @@ func ParseFile(inputPath string) (areas []textArea, err error) {
 			continue
 		}
 
-		var typeSpec *ast.TypeSpec // 类型
+		// 分组声明 type ( ... ) 里的每个类型都要处理, 不只是第一个
 		for _, spec := range genDecl.Specs {
-			if ts, tsOK := spec.(*ast.TypeSpec); tsOK {
-				typeSpec = ts
-				break
-			}
-		}
-
-		// 空就跳过
-		if typeSpec == nil {
-			continue
-		}
-
-		// 不是结构体就跳过
-		structDecl, ok := typeSpec.Type.(*ast.StructType)
-		if !ok {
-			continue
-		}
-
-		for _, field := range structDecl.Fields.List {
-			if field.Tag == nil { // 没有 tag 字面量的字段不处理
+			typeSpec, tsOK := spec.(*ast.TypeSpec)
+			if !tsOK {
 				continue
 			}
-			var comments []*ast.Comment
-			// 字段的注释
-			if field.Comment != nil {
-				comments = append(comments, field.Comment.List...)
+
+			// 不是结构体就跳过
+			structDecl, ok := typeSpec.Type.(*ast.StructType)
+			if !ok {
+				continue
 			}
 
-			// 组装数据
-			for _, comment := range comments {
-				tag := tagFromComment(comment.Text)
-				if tag == "" {
+			for _, field := range structDecl.Fields.List {
+				if field.Tag == nil { // 没有 tag 字面量的字段不处理
 					continue
 				}
-
-				currentTag := field.Tag.Value
-				area := textArea{
-					Start:      int(field.Pos()),
-					End:        int(field.End()),
-					CurrentTag: currentTag[1 : len(currentTag)-1], // 去掉 ``
-					InjectTag:  tag,
+				var comments []*ast.Comment
+				// 字段的注释
+				if field.Comment != nil {
+					comments = append(comments, field.Comment.List...)
 				}
-				areas = append(areas, area)
-				break // 一个字段只注入一次: 同一字段的多条 @tag 注释会得到相同的区间, 第二次注入时偏移已失效
+
+				// 组装数据
+				for _, comment := range comments {
+					tag := tagFromComment(comment.Text)
+					if tag == "" {
+						continue
+					}
+
+					currentTag := field.Tag.Value
+					area := textArea{
+						Start:      int(field.Pos()),
+						End:        int(field.End()),
+						CurrentTag: currentTag[1 : len(currentTag)-1], // 去掉 ``
+						InjectTag:  tag,
+					}
+					areas = append(areas, area)
+					break // 一个字段只注入一次: 同一字段的多条 @tag 注释会得到相同的区间, 第二次注入时偏移已失效
+				}
 			}
 		}
 	}
